@@ -299,6 +299,12 @@ func verifC01History() {
 	// reopen on what reached the file system; the process may die again during this recovery (new
 	// manifest with a full snapshot, synced, then CURRENT switched by rename)
 	fs.crashAt = -1
+	if verifChoose("cleanReopenFirst", 2) == 1 {
+		// a reopen that completes (and commits nothing) before the one that may die: the second
+		// recovery then starts from a manifest that holds only a snapshot
+		_, _, err := verifOpen(dir)
+		verifAssert(err == nil, "the store reopens after the crash (first reopen)")
+	}
 	if k := verifChoose("crashDuringRecovery", 7); k < 6 {
 		fs.crashAt = fs.ops + k
 		_, _, _ = verifOpen(dir)
